@@ -79,6 +79,12 @@ type sWorld struct {
 	clients []*sClient
 	extra   []*sClient // shadows of clients on a second document
 	val     int
+	// scenario scratch: the value pushed inside the window and the error of that push
+	pushed  int
+	pushErr string
+	// logical stamps of the attach-vs-compaction scenario
+	clock, attachDone, compactStart int
+	compacted                       bool
 }
 
 var sRunnerWorld *world.World
